@@ -229,6 +229,13 @@ class GoMap:
         return cands[i] if i < len(cands) else None
 
 
+class GoChan:
+    """buffered channel in a single-threaded world: operations that would block are outside the model"""
+    def __init__(self, cap):
+        self.buf = []
+        self.cap = cap
+
+
 class MapIter:
     def __init__(self, entries):
         self.entries = entries
@@ -683,6 +690,11 @@ class Machine:
         o = ins['sub']
         if o == '*':
             return cp(self.load(x, ins.get('pos', '')))
+        if o == '<-':
+            if x is None or not x.buf:
+                raise Unsupported('receive that would block (no other goroutine is modelled)')
+            v = x.buf.pop(0)
+            return (v, True) if ins.get('flag') else v
         if o == '!':
             if isinstance(x, bool):
                 return not x
@@ -967,7 +979,36 @@ class Machine:
         if op == 'RunDefers':
             self.run_defers(fr)
             return None
-        if op in ('Go', 'Select', 'Send', 'MakeChan'):
+        if op == 'MakeChan':
+            return GoChan(self.cint(val(fr, A[0]), 'channel capacity'))
+        if op == 'Send':
+            ch = val(fr, A[0])
+            if ch is None or len(ch.buf) >= ch.cap:
+                raise Unsupported('send that would block (no other goroutine is modelled)')
+            ch.buf.append(cp(val(fr, A[1])))
+            return None
+        if op == 'Select':
+            dirs = ins['sub'].split(',') if ins['sub'] else []
+            tup = p.T[ins['t']]['tuple']
+            recv_slots = [i for i, d in enumerate(dirs) if d == 'recv']
+            out = [-1, False] + [p.zero(t) for t in tup[2:]]
+            for i, d in enumerate(dirs):
+                ch = val(fr, A[2 * i])
+                if ch is None:
+                    continue
+                if d == 'recv' and ch.buf:
+                    out[0] = i
+                    out[1] = True
+                    out[2 + recv_slots.index(i)] = ch.buf.pop(0)
+                    return tuple(out)
+                if d == 'send' and len(ch.buf) < ch.cap:
+                    ch.buf.append(cp(val(fr, A[2 * i + 1])))
+                    out[0] = i
+                    return tuple(out)
+            if ins.get('flag'):
+                raise Unsupported('select that would block (no other goroutine is modelled)')
+            return tuple(out)
+        if op == 'Go':
             raise Unsupported('concurrency instruction ' + op)
         if op == 'SliceToArrayPointer':
             raise Unsupported(op)
